@@ -29,6 +29,7 @@ CLAIM = (
     "0-degree projection == column sums. A call-history part runs every ordered pair (thorough: triple) of filter / iradon / radon calls on a freshly re-imported module and judges the last call (results must not depend on earlier calls), and the number of projection angles straddles powers of two (255/256/257 ...). Exhaustive lattice exploration is the right level: the property quantifies over sizes/parities/"
     "angles/filters where the defects live (even sizes, padded FFT size), and linearity closes the data quantifier."
     ' Further enumerated dimensions: sinogram dtypes, legal alternative spellings of every argument judged against the canonical call, one tensor object handed to several calls and edited in place between them (results kept from earlier calls must not change, arguments come back unmodified), and re-entrant calls made from a lazy theta iterable while the outer call is fetching a later angle.'
+    " A content alphabet (all-zero, constant, zero-sum +1/-1 pairs and integer images, exactly symmetric, sparse integer, equal rows, negative, powers of two) runs alone and mixed into batches for images and sinograms, with linearity checked where the combination has content its terms lack."
 )
 NOTE = (
     "Trusted: scikit-image 0.26 as the reference; float32 tolerances relative to the output maximum (filter 2e-5, radon 5e-5, iradon 2.5e-4; worst observed 5.8e-7, 2.2e-6, 1.1e-5); sizes "
